@@ -11,7 +11,7 @@ def tombR (r : Rec) : Rec := { r with timeouted := true }
 theorem outK_eq_keyCancel (k : Engine.Key) (w : Engine.Waiter) : outK k w = keyCancel k w := rfl
 
 /-- the request `x` is taken out of the queue: tombstone, `settleWait` -/
-theorem tombT_live {w : W} (h : WS w) (x : Nat) (hh : w.k.hasRec x) (hd : w.k.deadWaiter x = false) :
+theorem tombT_live {w : W} (h : WSt w) (x : Nat) (hh : w.k.hasRec x) (hd : w.k.deadWaiter x = false) :
     Live ((w.modR x tombR).modK (·.settleWait)) (outK (Key.abs w.k) (waiterOf w.k x)) := by
   have hl : (w.k.getR x).timeouted = false := hd
   have hm : x ∈ w.k.wait.map (·.rid) := h.kt.wq x hh hl
@@ -83,7 +83,7 @@ theorem fireTimeout_live_eq (w : W) (rid : Nat) (hT : w.k.hasT rid = true) (hl :
   rfl
 
 /-- **`doTimeOut` of a live request**, working-state level: the state before the wake pass -/
-theorem fireT_rel {w : W} (h : WS w) (a : Engine.DB) (sc : Scal a w.db) (out1 : List Engine.Reply) (ho : w.out.map (·.r) = out1) (rid : Nat)
+theorem fireT_rel {w : W} (h : WSt w) (a : Engine.DB) (sc : Scal a w.db) (out1 : List Engine.Reply) (ho : w.out.map (·.r) = out1) (rid : Nat)
     (hT : w.k.hasT rid = true) (hl : (w.k.getR rid).timeouted = false) :
     Rel ((((((w.modR rid tombR).modK (·.settleWait)).ctr ctrW).dropT rid).ctr ctrT).reply
         { (w.k.getR rid).cmd with conn := (w.k.getR rid).conn } Engine.RESULT_TIMEOUT 0
